@@ -114,6 +114,11 @@ class BehavioralRTLIRToVVisitorL1( bir.BehavioralRTLIRNodeVisitor ):
     s._is_verilog_reserved = is_reserved
     s._unpacked_q   = deque()
 
+  def visit_expr_wrap( s, node ):
+    """Return expressions selectively wrapped with brackets (no compound
+    expressions at L1; higher levels override this)."""
+    return s.visit( node )
+
   def visit( s, node, *args ):
     # Customized epilogue processing
     method = 'visit_' + node.__class__.__name__
@@ -398,7 +403,7 @@ class BehavioralRTLIRToVVisitorL1( bir.BehavioralRTLIRNodeVisitor ):
     if op_t not in reduce_ops:
       raise VerilogTranslationError( s.blk, node,
           f"unrecognized operator {op_t} for reduce method!" )
-    value = s.visit( node.value )
+    value = s.visit_expr_wrap( node.value )
     op = reduce_ops[ op_t ]
     return f"( {op} {value} )"
 
